@@ -105,7 +105,7 @@ func (e *c05env) step(s c05step) (sig, msg string) {
 		}
 	}
 	verifrt.SetTickBudget(budget)
-	pv, stack := guarded(func() {
+	pv, stack := vfGuarded(func() {
 		switch s.Kind {
 		case "open":
 			e.f.rotate1()
@@ -134,7 +134,7 @@ func (e *c05env) step(s c05step) (sig, msg string) {
 	ticks := verifrt.Ticks()
 	verifrt.SetTickBudget(0)
 	if over {
-		return "unbounded-loop:" + topFrameOf(stack, pv), fmt.Sprintf("call %s exceeded the loop-tick budget (%d ticks): unbounded loop\n%.1200s", s.Kind, ticks, stack)
+		return "unbounded-loop:" + vfTopFrameOf(stack, pv), fmt.Sprintf("call %s exceeded the loop-tick budget (%d ticks): unbounded loop\n%.1200s", s.Kind, ticks, stack)
 	}
 	if pv != nil {
 		kind := "panic"
@@ -144,12 +144,12 @@ func (e *c05env) step(s c05step) (sig, msg string) {
 				kind = "stale-mapping-access"
 			}
 		}
-		return kind + ":" + topFrame(stack), fmt.Sprintf("call %s: %s escaped to the host: %v\n%.1500s", s.Kind, kind, pv, stack)
+		return kind + ":" + vfTopFrame(stack), fmt.Sprintf("call %s: %s escaped to the host: %v\n%.1500s", s.Kind, kind, pv, stack)
 	}
 	return "", ""
 }
 
-func mapRO(fn string) ([]byte, error) {
+func vfMapRO(fn string) ([]byte, error) {
 	f, err := os.Open(fn)
 	if err != nil {
 		return nil, err
@@ -162,11 +162,11 @@ func mapRO(fn string) ([]byte, error) {
 	return syscall.Mmap(int(f.Fd()), 0, int(fi.Size()), syscall.PROT_READ, syscall.MAP_SHARED)
 }
 
-func topFrameOf(stack string, pv any) string {
+func vfTopFrameOf(stack string, pv any) string {
 	if stack == "" {
 		return "?"
 	}
-	return topFrame(stack)
+	return vfTopFrame(stack)
 }
 
 // audit checks that no counter exceeds what was begun and no cell decreased.
@@ -176,7 +176,7 @@ func (e *c05env) audit() (sig, msg string) {
 	for _, fn := range files {
 		// map rather than read: a corrupt allocation limit can make the library
 		// extend the file to gigabytes (sparse)
-		d, err := mapRO(fn)
+		d, err := vfMapRO(fn)
 		if err != nil || len(d) < verifref.PageSize {
 			continue
 		}
@@ -189,7 +189,7 @@ func (e *c05env) audit() (sig, msg string) {
 			v := binary.LittleEndian.Uint64(d[off:])
 			key := fn + "|" + name
 			if v < e.last[key] {
-				return "cell-decreased", fmt.Sprintf("counter %q in %s went from %d to %d", trunc40(name), filepath.Base(fn), e.last[key], v)
+				return "cell-decreased", fmt.Sprintf("counter %q in %s went from %d to %d", vfTrunc40(name), filepath.Base(fn), e.last[key], v)
 			}
 			e.last[key] = v
 			sum[name] += v
@@ -199,7 +199,7 @@ func (e *c05env) audit() (sig, msg string) {
 	for i, name := range e.names {
 		x := counterStateBits(e.ctrs[i].state.bits.Load()).extra()
 		if sum[name]+x > e.begun[i] {
-			return "inflated", fmt.Sprintf("counter %q: persisted %d + pending %d exceeds the increments begun %d", trunc40(name), sum[name], x, e.begun[i])
+			return "inflated", fmt.Sprintf("counter %q: persisted %d + pending %d exceeds the increments begun %d", vfTrunc40(name), sum[name], x, e.begun[i])
 		}
 	}
 	return "", ""
@@ -252,7 +252,7 @@ func c05Faults(t *testing.T) {
 	const check = "C05.faults"
 	res := verifrt.NewResult(check)
 	res.Rule = "scenario: increment before open, open, increments of existing and new counters, growth over a page (remap), read, weekly rotation, more increments and growth. A fault-free recording pass lists every fs/mmap call (shim events); then every single call x every errno of {EACCES, ENOENT, EEXIST, ENOSPC, EIO, EMFILE, EROFS, ENOTDIR, EISDIR, ENOMEM} (+ short write) is injected, plus pairs of faults (quick: sampled; thorough: all pairs for 3 errnos), plus deletions of the counter file / local dir between calls. Oracle per host call: returns normally (no panic/fault), loop-tick budget, no counter exceeds increments begun, no cell decreases. distinct = distinct (call index, errno[, second call, errno]) plans; all non-trivial"
-	base := vtmp("c05-")
+	base := vfVtmp("c05-")
 	defer os.RemoveAll(base)
 	// recording pass (in every process: it is deterministic)
 	rec := runC05(res, base, c05Scenario, nil, nil, map[string]any{"plan": "none"})
@@ -292,7 +292,7 @@ func c05Faults(t *testing.T) {
 	nb := 16
 	per := (len(plans) + nb - 1) / nb
 	verifrt.RunBatches("TestVerifC05Faults", res, nb, 0, 30*time.Minute, "c05.death", func(b int, r *verifrt.Result, cur *verifrt.Current) {
-		bbase := vtmp("c05b-")
+		bbase := vfVtmp("c05b-")
 		defer os.RemoveAll(bbase)
 		lo, hi := verifrt.CaseRange(check, b, per)
 		for i := lo; i < hi && i < len(plans); i++ {
@@ -360,12 +360,12 @@ func c05Faults(t *testing.T) {
 func c05Corrupt(t *testing.T) {
 	const check = "C05.corrupt"
 	res := verifrt.NewResult(check)
-	res.Rule = "a counter file written by the library (some plain, long and stack-named counters) is damaged at rest by one or two of the targeted damage classes (header length, limit incl. values that wrap when rounded to a page, bucket heads, next links incl. self/2-/long cycles, name lengths, truncation, metadata, random flips/words) or replaced by random bytes, then opened by a fresh process-local file value: open, increments of the names that were in the file, of new names and of page-filling names, rotation and read must each return normally within the loop-tick budget, and no counter may exceed its increments. distinct = distinct damaged images"
+	res.Rule = "a counter file written by the library (some plain, long and stack-named counters) is damaged at rest by one or two of the targeted vfDamage classes (header length, limit incl. values that wrap when rounded to a page, bucket heads, next links incl. self/2-/long cycles, name lengths, truncation, metadata, random flips/words) or replaced by random bytes, then opened by a fresh process-local file value: open, increments of the names that were in the file, of new names and of page-filling names, rotation and read must each return normally within the loop-tick budget, and no counter may exceed its increments; three further counters of the file that the host never touches must keep the value they show in the damaged image. distinct = distinct damaged images"
 	nb := 16
 	total := verifrt.Scale(1000, 40000)
 	per := (total + nb - 1) / nb
 	verifrt.RunBatches("TestVerifC05Corrupt", res, nb, 0, 30*time.Minute, "c05.death", func(b int, r *verifrt.Result, cur *verifrt.Current) {
-		base := vtmp("c05c-")
+		base := vfVtmp("c05c-")
 		defer os.RemoveAll(base)
 		lo, hi := verifrt.CaseRange(check, b, per)
 		for i := lo; i < hi; i++ {
@@ -373,6 +373,7 @@ func c05Corrupt(t *testing.T) {
 			class := ""
 			var names []string
 			var damaged []byte
+			damagedPath := ""
 			prep := func(e *c05env) {
 				// write a healthy file through the library
 				e.f.rotate1()
@@ -384,10 +385,16 @@ func c05Corrupt(t *testing.T) {
 				n := 2 + rnd.Intn(12)
 				for k := 0; k < n; k++ {
 					shape := verifrt.Pick(rnd, []string{"plain", "plain", "long", "ditto", "stack"})
-					name := genName(rnd, shape, k)
+					name := vfGenName(rnd, shape, k)
 					names = append(names, name)
 					c := &Counter{name: name, file: e.f}
 					c.Add(int64(1 + rnd.Intn(5)))
+				}
+				// bystanders: counters of this file that the host never touches
+				// afterwards ("failures never change the values of other counters")
+				for k := 0; k < 3; k++ {
+					c := &Counter{name: fmt.Sprintf("verif/bystander/%d", k), file: e.f}
+					c.Add(int64(1000 + k))
 				}
 				m = e.f.current.Load()
 				m.close()
@@ -427,6 +434,7 @@ func c05Corrupt(t *testing.T) {
 				}
 				os.WriteFile(path, out, 0o666)
 				damaged = out
+				damagedPath = path
 				// fresh process state
 				e.f = &file{}
 				e.ctrs, e.names, e.begun = nil, nil, nil
@@ -466,10 +474,35 @@ func c05Corrupt(t *testing.T) {
 				if sig, msg := e.step(s); sig != "" {
 					inp := ""
 					if len(damaged) > 0 {
-						inp = saveInput(r, "C05", damaged)
+						inp = vfSaveInput(r, "C05", damaged)
 					}
-					r.Violate(sig, msg+"\n(damage class "+class+")", verifrt.CaseReplay(i, map[string]any{"class": class, "step": si, "input": inp}))
+					r.Violate(sig, msg+"\n(vfDamage class "+class+")", verifrt.CaseReplay(i, map[string]any{"class": class, "step": si, "input": inp}))
 					break
+				}
+			}
+			// bystanders that were readable in the damaged image still show their value
+			if final, err := os.ReadFile(damagedPath); err == nil && len(damaged) > 0 && len(final) >= len(damaged) {
+				for k := 0; k < 3; k++ {
+					nm := fmt.Sprintf("verif/bystander/%d", k)
+					off := verifref.FindRecord(damaged, nm)
+					if off == 0 || int(off)+8 > len(damaged) {
+						continue
+					}
+					before := binary.LittleEndian.Uint64(damaged[off:])
+					if before != uint64(1000+k) {
+						continue // the vfDamage itself hit this record
+					}
+					r.Hit("bystander-checked")
+					off2 := verifref.FindRecord(final, nm)
+					after := uint64(0)
+					if off2 != 0 && int(off2)+8 <= len(final) {
+						after = binary.LittleEndian.Uint64(final[off2:])
+					}
+					if off2 == 0 || after != before {
+						r.Violate("bystander-value-changed:"+strings.SplitN(class, "+", 2)[0], fmt.Sprintf("counter %s, which the host never touched, read %d in the damaged file before it was opened and reads %d (record at %#x, was %#x) after the host's increments of other counters (vfDamage class %s)", nm, before, after, off2, off, class),
+							verifrt.CaseReplay(i, map[string]any{"class": class, "input": vfSaveInput(r, "C05", damaged)}))
+						break
+					}
 				}
 			}
 			if i-lo < 1 && b < 2 {
@@ -492,19 +525,19 @@ func c05Corrupt(t *testing.T) {
 			}
 		}
 	})
-	res.Require("damage:cycle-2", "damage:next-self", "damage:limit-wrap", "damage:limit", "damage:hdrlen-small", "damage:truncate", "damage:random-bytes", "damage:head-bad")
+	res.Require("bystander-checked", "damage:cycle-2", "damage:next-self", "damage:limit-wrap", "damage:limit", "damage:hdrlen-small", "damage:truncate", "damage:random-bytes", "damage:head-bad")
 	if err := res.Write(); err != nil {
 		t.Fatal(err)
 	}
 }
 
-var c05Damages = append(append([]damage{}, damages...),
-	damage{"limit-wrap", func(r *verifrt.Rand, d []byte, cf *verifref.CounterFile) []byte {
-		put32(d, cf.HdrLen, uint32(verifrt.Pick(r, []int{0xffffc001, 0xfffffff0, 0xffffffe0, 0xffffc000, 0x7fffffff})))
+var c05Damages = append(append([]vfDamage{}, vfDamages...),
+	vfDamage{"limit-wrap", func(r *verifrt.Rand, d []byte, cf *verifref.CounterFile) []byte {
+		vfPut32(d, cf.HdrLen, uint32(verifrt.Pick(r, []int{0xffffc001, 0xfffffff0, 0xffffffe0, 0xffffc000, 0x7fffffff})))
 		return d
 	}},
-	damage{"limit-page-edge", func(r *verifrt.Rand, d []byte, cf *verifref.CounterFile) []byte {
-		put32(d, cf.HdrLen, uint32(len(d)-verifrt.Pick(r, []int{0, 32, 64, 4, 16})))
+	vfDamage{"limit-page-edge", func(r *verifrt.Rand, d []byte, cf *verifref.CounterFile) []byte {
+		vfPut32(d, cf.HdrLen, uint32(len(d)-verifrt.Pick(r, []int{0, 32, 64, 4, 16})))
 		return d
 	}},
 )
@@ -514,7 +547,7 @@ func c05States(t *testing.T) {
 	const check = "C05.states"
 	res := verifrt.NewResult(check)
 	res.Rule = "initial states: telemetry dir / local / weekends / mode missing, a regular file where a directory is expected and vice versa, dangling and looping symlinks, read-only directories (as far as root can be denied: via injected EACCES), an existing directory in place of the counter file; the scenario of C05.faults must run to the end on each. distinct = distinct states"
-	base := vtmp("c05s-")
+	base := vfVtmp("c05s-")
 	defer os.RemoveAll(base)
 	type st struct {
 		name string
